@@ -79,7 +79,7 @@ def run_cases(ctx: core.Ctx, cases: list[dict[str, Any]], stream: str, envs: lis
     eenc = [G.enc_env(e) for e in envs]
     probes = probes or []
     pv = [V.parse_probe(p) for p in probes]
-    model = core.run_driver([model_line(c, eenc, probes) for c in cases], timeout=1800)
+    model = core.run_driver_split([model_line(c, eenc, probes) for c in cases])
     out: list[dict[str, Any]] = []
     dis = 0
     for case, mo in zip(cases, model):
@@ -131,7 +131,7 @@ def run_cases(ctx: core.Ctx, cases: list[dict[str, Any]], stream: str, envs: lis
                     dis += 1
                     ctx.disagree(sig + ":operand-parse", case, io[:3], mo)
         elif mo[0] == "err":
-            if mo[1] in ("unmodelled", "fuel"):
+            if mo[1] in ("unmodelled", "fuel", "timeout"):
                 ctx.count("model:" + mo[1])
             elif io[0] != "err" or io[1] != mo[1]:
                 dis += 1
